@@ -38,7 +38,7 @@ def run(chk):
     chk.check(got <= {"set_border_color", "process_spcr_block"} and "set_border_color" in got, "T-WRITERS/ZXController.border_color",
               "border_color is written by %s" % sorted(got))
     callers = set(short(s.fn.path) for s in cg.callers_of(names.ctl("set_border_color")))
-    chk.check(callers <= {"write_io", "load"}, "T-WRITERS/ZXController::set_border_color/callers", "set_border_color is called from %s" % sorted(callers))
+    chk.check(callers <= {"write_io", "load", "process_spcr_block"}, "T-WRITERS/ZXController::set_border_color/callers", "set_border_color is called from %s" % sorted(callers))
     color_tables(chk, prog)
     set_border_color(chk, prog, names)
     sna_border(chk, prog, names)
